@@ -723,6 +723,7 @@ def run(chk):   # noqa
     _srcmap_rule(chk, prog)
     _mapform_rule(chk, prog)
     _dropshort_rule(chk, prog)
+    _paramregs_rule(chk, prog)
     _closureflag_rule(chk, prog)
     _wrflag_rule(chk, prog)
     _sloteq_rule(chk, prog)
@@ -1001,4 +1002,34 @@ def _dropshort_rule(chk, prog):
                       "instead of the tuple" % x.kids[0].text()[:70])
     else:
         chk.ok(rule, "dohead_destructure: short cut only under `%s`" % x.kids[0].text()[:50])
+    chk.floor(rule, 1)
+
+
+def _paramregs_rule(chk, prog):
+    """Arguments of a call are stored in consecutive stack slots 0 .. n-1.  Parameters are named registers handed out by
+    the register allocator, and the allocator steps over the reserved registers 240-255 (pushchunk marks them as taken).
+    Up to 240 parameters the k-th parameter gets register k; beyond that it gets k + 16 while its argument still sits in
+    slot k.  janetc_fn therefore has to refuse a parameter list whose registers reach the reserved window."""
+    rule = "C02-PARAMREGS"
+    chk.rule(rule, "janetc_fn refuses a parameter list whose registers reach the reserved window (a test of the allocator's high-water mark against 0xF0 that leads to the error exit)")
+    ra = prog.need_func("pushchunk", "regalloc.c")
+    reserved = any((y.v or 0) == 0xFFFF0000 for y in ra.nodes)
+    fn = prog.need_func("janetc_fn", "specials.c")
+    chk.analysed(fn)
+    chk.instance(rule)
+    if not reserved:
+        chk.ok(rule, "the register allocator no longer reserves a window (premise gone)")
+        chk.note("%s: pushchunk no longer marks registers 240-255 as taken; nothing to decide" % rule)
+        chk.floor(rule, 1)
+        return
+    guards = [x for x in fn.nodes if x.k == "if" and any(
+        y.k == "bin" and y.op in (">=", ">") and any(z.k == "mem" and z.field == "max" and z.rec == "JanetcRegisterAllocator" for z in y.kids[0].walk())
+        and strip_casts(y.kids[1]).v is not None and strip_casts(y.kids[1]).v + (1 if y.op == ">" else 0) <= 0xF0 for y in x.kids[0].walk())
+        and any(g.k == "goto" or (g.k == "call" and g.callee in ("janetc_cerror", "janetc_error")) for g in x.kids[1].walk())]
+    if guards:
+        chk.ok(rule, "janetc_fn: `%s` leads to the error exit" % guards[0].kids[0].text()[:40])
+    else:
+        chk.violation(rule, "specials.c", "janetc_fn", "reserved-window", fn.loc,
+                      "janetc_fn accepts any number of parameters although their registers skip 240-255 and their arguments do not: "
+                      "(fn [a0 ... a299] a240) called with (range 300) returns 256")
     chk.floor(rule, 1)
